@@ -84,8 +84,8 @@ def build(tier):
         for nm in ("stream", "newdef", "newdef2", "flush", "srcfirst"):
             for ln in (1, 2):
                 plan += [(nm, ln, s) for s in schedules(SCRIPTS[nm], BURSTS, 1)]
-                plan += [(nm, ln, SCRIPTS[nm])] + [(nm, ln, s) for s in schedules(SCRIPTS[nm], BURSTS[:4] if ln == 1 else BURSTS[:2], 2)]
-        plan += [("stream", 1, s) for s in schedules(SCRIPTS["stream"], BURSTS[:2], 3)]
+                plan += [(nm, ln, SCRIPTS[nm])] + [(nm, ln, s) for s in schedules(SCRIPTS[nm], BURSTS[:4] if (ln == 1 and nm in ("stream", "newdef")) else BURSTS[:2], 2)]
+        plan += [("stream", 1, s) for s in schedules(SCRIPTS["stream"], BURSTS[:2], 3)][::2]
     for i, (nm, ln, ops) in enumerate(plan):
         name = "queue_%s_len%d_%s" % (nm, ln, "-".join(map(str, ops)))
         if name in seen:
